@@ -56,7 +56,7 @@ func (c C) coverage(key string, fn *ssa.Function, st *types.Struct, root string,
 func C08(p *ir.Program, r *report.R) {
 	c := C{p, r}
 	r.Floor = 60
-	r.Explain = "Decided: sign-field coverage per transaction kind, with the field list taken from the struct type (txdata, tokenData, ContractUpgradeMainInfo, MultiSignMainInfo, UTXOTransaction) so that a new field that is not signed is reported; the chain parameter is appended by both the signing and the verifying hash and the protected path of STDEIP155Signer.Sender is dominated by sign-param equality; recoverPlain reaches Ecrecover only after the V range and ValidateSignatureValues checks, with homestead rules from every reachable caller; the transaction hash (cache key, mempool identity) covers the signature for every kind and the cached sender is used only for an equal signer; the confidential spend authorisation message is the prefix hash that covers inputs, outputs, token, keys, fee, extra and the account signature, and the ring signatures are checked against the expanded signature built from it. NOT decided: soundness of secp256k1/ed25519/RingCT (cgo), one-time address ownership (cryptographic, no structural clause)."
+	r.Explain = "Decided: sign-field coverage per transaction kind, with the field list taken from the struct type (txdata, tokenData, ContractUpgradeMainInfo, MultiSignMainInfo, UTXOTransaction) so that a new field that is not signed is reported; the chain parameter is appended by both the signing and the verifying hash and the protected path of STDEIP155Signer.Sender is dominated by sign-param equality; recoverPlain reaches Ecrecover only after the V range and ValidateSignatureValues checks, with homestead rules from every reachable caller; the transaction hash (cache key, mempool identity) covers the signature for every kind and the cached sender is used only for an equal signer; the confidential spend authorisation message is the prefix hash that covers inputs, outputs, token, keys, fee, extra and the account signature, and the ring signatures are checked against the expanded signature built from it. ADDED after seeded-change testing: ValidateSignatureValues is interpreted exhaustively over the orderings of r and s against 1, N/2 and N, the homestead flag and v (1458 rows) against the specification, and secp256k1halfN is N/2; UTXOTransaction.CheckBasic returns nil only after checkTxInputKeys (ring signatures) whenever the transaction has a confidential input. NOT decided: soundness of secp256k1/ed25519/RingCT (cgo), one-time address ownership (cryptographic, no structural clause)."
 	r.Trusted = []string{"crypto.Ecrecover / ValidateSignatureValues (secp256k1)", "xcrypto RingCT (cgo)", "rlpHash = Keccak(ser encoding) (C11)"}
 
 	sigEx := func(m map[string]string) map[string]string {
@@ -177,6 +177,51 @@ func C08(p *ir.Program, r *report.R) {
 			c.Guards("types.recoverPlain", "Ecrecover", call,
 				G{"v-fits-byte", "le(big.Int.BitLen(Vb),8)"},
 				G{"values-valid", "crypto.ValidateSignatureValues(*,R,S,homestead)"})
+		}
+		// the value check itself: exhaustive over the orderings of r and s against 1, N/2 and N,
+		// the homestead flag and the recovery id
+		{
+			vf := p.Func("libs/crypto", "ValidateSignatureValues")
+			cmp := func(a, b string) string { return "big.Int.Cmp(" + a + "," + b + ")" }
+			tri := []int64{-1, 0, 1}
+			d := ir.Domain{Axes: []ir.Axis{
+				ir.EnumAxis("r?1", cmp("r", "common.Big1"), tri),
+				ir.EnumAxis("s?1", cmp("s", "common.Big1"), tri),
+				ir.BoolAxis("homestead", "homestead"),
+				ir.EnumAxis("s?N/2", cmp("s", "crypto.secp256k1halfN"), tri),
+				ir.EnumAxis("r?N", cmp("r", "crypto.secp256k1N"), tri),
+				ir.EnumAxis("s?N", cmp("s", "crypto.secp256k1N"), tri),
+				ir.EnumAxis("v", "v", []int64{0, 1, 2}),
+			}}
+			rows := ir.Enumerate(vf, d, ir.InterpOpts{})
+			c.Table("libs/crypto.ValidateSignatureValues/decision-table", vf, rows, func(row ir.Row) string {
+				ok := !row.Has("r?1=-1") && !row.Has("s?1=-1") && row.Has("r?N=-1") && row.Has("s?N=-1") && !row.Has("v=2")
+				if row.Has("homestead") && row.Has("s?N/2=1") {
+					ok = false
+				}
+				return fmt.Sprint(ok)
+			}, func(row ir.Row) string {
+				if row.Outcome.Kind == "return" && len(row.Outcome.Results) == 1 {
+					return row.Outcome.Results[0]
+				}
+				return row.Outcome.String()
+			})
+			half := p.Obj("libs/crypto", "secp256k1halfN")
+			okHalf := false
+			for _, f := range p.Funcs {
+				if f.Pkg == nil || ir.RelPkg(f.Pkg.Pkg) != "libs/crypto" || !strings.HasPrefix(f.Name(), "init") {
+					continue
+				}
+				ir.Instrs(f, func(in ssa.Instruction) {
+					if st, ok := in.(*ssa.Store); ok {
+						if g, ok := st.Addr.(*ssa.Global); ok && g.Object() == half {
+							v := ir.Render(st.Val)
+							okHalf = strings.Contains(v, "big.Int.Div(") && strings.Contains(v, "secp256k1N") && strings.Contains(v, "big.NewInt(2)")
+						}
+					}
+				})
+			}
+			r.Check("K11", "libs/crypto.secp256k1halfN/is-N-div-2", p.Pos(half.Pos()), okHalf, "the low-s bound is N/2 computed from the curve order")
 		}
 		// callers of recover with homestead == false
 		rec := p.Obj("types", "signerData.recover").(*types.Func)
@@ -344,6 +389,26 @@ func C08(p *ir.Program, r *report.R) {
 		}
 	}
 	_ = sort.Strings
+
+	// ---- confidential spend authorisation is checked whenever there is a confidential input ----
+	{
+		fn := p.Func("types", "UTXOTransaction.CheckBasic")
+		name := "types.(*UTXOTransaction).CheckBasic"
+		kind := "types.UTXOTransaction.UTXOKind(tx)"
+		uin := fmt.Sprint(c.ConstInt("types", "Uin"))
+		uinuout := fmt.Sprint(c.ConstInt("types", "UinUout"))
+		ill := fmt.Sprint(c.ConstInt("types", "IllKind"))
+		n := 0
+		for _, rt := range ir.Returns(fn) {
+			if ir.AbstractResult(rt.Results[0]) != "nil" {
+				continue
+			}
+			n++
+			c.GuardsAny(name, "return nil", "ring-signatures-if-confidential-inputs", rt.Instr,
+				"eq(types.UTXOTransaction.checkTxInputKeys(tx,censor),nil)", "!eq(("+kind+" & "+uin+"),"+uin+")", "eq(("+kind+" & "+uinuout+"),"+ill+")")
+		}
+		c.MustFind("K1", name+"/return nil", fn, n, "nil return")
+	}
 }
 
 // normEmbedded rewrites "tx.data.X" element renderings to the embedded-struct path form.
